@@ -341,6 +341,38 @@ def runOpts (c : Case) : List String :=
       | .norun => l0 ++ [savedLine, "txt renorun"]
       | .run _ vars2 => l0 ++ [savedLine, "txt rerun", varsLine vars2]
 
+/-- fpiter <id> <n> <dt> <fptype> <steps> <every> ; extra = e1 qmin qmax pmin pmax ; data -/
+def runFPIter (c : Case) : List String :=
+  let n := natArg c 2
+  let dt := natArg c 3
+  let fpt := natArg c 4
+  let steps := natArg c 5
+  let every := max (natArg c 6) 1
+  let e1 := c.extra.getD 0 f32zero
+  let ry : Ruler Float32 := { steps := n, min := c.extra.getD 3 f32zero, max := c.extra.getD 4 f32zero }
+  let delta := ry.delta
+  let yc := ry.zerobin
+  let pArr := ((List.range n).map ry.at).toArray
+  let p : Nat → Float32 := fun j => pArr.getD j f32zero
+  let jc : Nat := match f32modf yc with
+    | some (i, _) => i
+    | none => 0
+  let ltyc : Nat → Bool := fun j => decide (Float32.ofNat j < yc)
+  let rows := ((List.range n).map fun j => fpRowAt dt fpt n jc ltyc e1 delta p j).toArray
+  let rowAt : Nat → List (Hi Float32) := fun j => rows.getD j []
+  let moments (g : Array Float32) (k : Nat) : String :=
+    let (m0, m1, m2) := (List.range (n * n)).foldl (fun (acc : Float × Float × Float) i =>
+      let pv := (p (i % n)).toFloat
+      let v := (g.getD i f32zero).toFloat
+      (acc.1 + v, acc.2.1 + v * pv, acc.2.2 + v * pv * pv)) (0.0, 0.0, 0.0)
+    hexLine "vals" [Float32.ofNat k, m0.toFloat32, m1.toFloat32, m2.toFloat32]
+  let (g, lines) := (List.range steps).foldl (fun (acc : Array Float32 × List String) k0 =>
+    let (g, out) := acc
+    let k := k0 + 1
+    let g' := (fpApply n 1 rowAt (fun i => g.getD i f32zero)).toArray
+    (g', if k % every == 0 || k == steps then out ++ [moments g' k] else out)) (c.data, [moments c.data 0])
+  ["case " ++ c.id] ++ lines ++ [hexLine "out" g.toList]
+
 def dispatch (c : Case) : List String :=
   match c.kind with
   | "kick" => runKick c
@@ -351,6 +383,7 @@ def dispatch (c : Case) : List String :=
   | "ps" => runPS c
   | "ef" => runEF c
   | "opts" => runOpts c
+  | "fpiter" => runFPIter c
   | "drift" => runDrift c
   | k => ["case " ++ c.id, "error unknown-kind " ++ k]
 
